@@ -87,6 +87,51 @@ fn file_surface(rep: &Report, ids: &[Ident]) {
             rep.violation("file/accepted-prefix", json!({"kind":"file-pass","bytes":hx(&pf[..i])}), format!("{}-byte proper prefix accepted", i));
         }
     });
+    // records that AUTHENTICATE (sealed by REF under the file's key) but carry unusual field values: flag values other
+    // than 0/1, counter fields of every magnitude, lengths 0 and 1 - in the first and in a later position, both modes.
+    // A hostile sender who knows the recipient's public key (or the password) can build these. Any verdict but a panic.
+    {
+        let key_hdr = &kf[..132];
+        let fk = r::read_key_file(&rc.sk, &kf).map(|k| k.file_key).unwrap_or([0u8; 32]);
+        let pk = r::pass_key(b"c09", &salt);
+        let pass_hdr = &pf[..36];
+        let flags: Vec<u32> = vec![0, 1, 2, 3, 0x7fff_ffff, 0x8000_0000, 0xffff_fffe, 0xffff_ffff, 0x0100_0000, 0x0000_0100];
+        let counters: Vec<u64> = vec![0, 1, 2, 255, 256, 65536, 1 << 32, 1 << 56, u64::MAX - 1, u64::MAX];
+        let mut files: Vec<(String, bool, Vec<u8>)> = vec![];
+        for (mode, hdr, key, pre) in [("key", key_hdr, fk, &[][..]), ("pass", pass_hdr, pk, &r::PASS_MAGIC[..])] {
+            for &fl in &flags {
+                for &ctr in &counters {
+                    for l in [0usize, 1, 50] {
+                        let body = plaintext(seed ^ 0x92, l);
+                        for pos in 0..2u64 {
+                            let mut f = hdr.to_vec();
+                            if pos == 1 {
+                                f.extend_from_slice(&r::seal_conforming(&key, pre, 0, false, &p[..30]).bytes());
+                            }
+                            f.extend_from_slice(&r::seal_record(&key, pos, pre, fl, l as u32, ctr, fl, l as u32, &body).bytes());
+                            // ... followed by nothing, and followed by a conforming final record
+                            files.push((format!("{} flag={:#x} counter={:#x} len={} pos={}", mode, fl, ctr, l, pos), mode == "key", f.clone()));
+                            f.extend_from_slice(&r::seal_conforming(&key, pre, pos + 1, true, b"tail").bytes());
+                            files.push((format!("{} flag={:#x} counter={:#x} len={} pos={} +final", mode, fl, ctr, l, pos), mode == "key", f));
+                        }
+                    }
+                }
+            }
+        }
+        let nf = files.len();
+        files.par_iter().for_each(|(descr, is_key, f)| {
+            if !*is_key && !descr.contains("counter=0x0 ") && !descr.contains("counter=0xffffffffffffffff ") {
+                return; // password mode costs one scrypt per run: two counter values only
+            }
+            rep.eval(1);
+            let (res, _) = run_plain(if *is_key { &kdec } else { &pdec }, f);
+            if let Res::Panic(m) = &res {
+                rep.violation("file/panic-on-authentic-record-with-unusual-fields", json!({"kind":"file-fields","descr":descr,"bytes":hx(f)}), format!("decrypt panicked on a file whose records authenticate but carry unusual field values ({}): {}", descr, m));
+            }
+            rep.nontrivial(descr.as_bytes());
+        });
+        rep.extra("authentic_records_with_unusual_fields", json!(nf));
+    }
     rep.add_distinct(n.load(Ordering::Relaxed));
     rep.sample(json!({"surface":"encrypted file","input":"every byte string of length <= 2; every prefix of a 2-chunk file, alone and followed by 40 filler bytes"}));
 }
@@ -664,6 +709,69 @@ fn cli_slot_grid(rep: &Report) {
     rep.sample(json!({"surface":"argv slot grid","argv":["password","encrypt","nosuch","-o","existing.bin","--env-pass"],"expect":"exit 1 with Error: line"}));
 }
 
+/// Option-like junk in every command: one token from an alphabet of malformed / unknown / multi-byte / non-UTF-8 option
+/// spellings, placed before or after an otherwise valid argument list of each sub-command. Real processes; any exit status
+/// 0/1 with an `Error:` line is fine, a panic (exit 101), a signal or a hang is not.
+fn cli_option_junk(rep: &Report) {
+    let seed = rep.seed;
+    let alice = Party::new(seed, "alice", "alicepw");
+    let bob = Party::new(seed, "bob", "bobpw");
+    let kr = crate::fx::keyring(&[(&alice, true), (&bob, true)]);
+    let p = plaintext(seed ^ 0x96, 20);
+    let ct = r::write_key_file(&bob.sk, &alice.pk, &derive32(seed, "c09-je"), &derive32(seed, "c09-jp"), &p, &[20]).unwrap();
+    let bases: Vec<Vec<&str>> = vec![
+        vec!["encrypt", "plain.bin", "-t", "bob", "-f", "alice", "-k", "kr.txt", "-o", "out.bin", "--env-pass"],
+        vec!["enc", "plain.bin", "-t", "bob", "-f", "alice", "-k", "kr.txt", "-o", "out.bin", "--env-pass"],
+        vec!["decrypt", "ct.ktl", "-t", "alice", "-k", "kr.txt", "-o", "out.bin", "--env-pass"],
+        vec!["dec", "ct.ktl", "-t", "alice", "-k", "kr.txt", "-o", "out.bin", "--env-pass"],
+        vec!["password", "encrypt", "plain.bin", "-o", "out.bin", "--env-pass"],
+        vec!["pass", "dec", "ct.ktl", "-o", "out.bin", "--env-pass"],
+        vec!["key", "generate", "-o", "new.txt", "--env-pass"],
+        vec!["key", "change-pass", &alice.locked, "--env-pass"],
+        vec!["key", "extract-pub", &alice.locked, "--env-pass"],
+        vec![],
+        vec!["key"],
+        vec!["password"],
+    ];
+    let junk: Vec<Vec<u8>> = [
+        "--=x", "--=", "-=x", "-=", "-\u{e9}", "--\u{43a}\u{43b}\u{44e}\u{447}", "-\u{20ac}", "--\u{e9}=\u{fc}", "-\u{1F600}", "--\u{1F600}=1", "---", "--", "-", "--t", "-tt", "--to=", "--to", "-ho", "-falice", "--from=alice", "--frobnicate", "--env-pass=1", "-k=", "-o=", "--output=", "-\u{300}", "--x\u{301}",
+    ]
+    .iter()
+    .map(|t| t.as_bytes().to_vec())
+    .chain([vec![b'-', 0xff], vec![b'-', b'-', 0xc3], vec![b'-', 0xe2, 0x82], vec![b'-', b'-', b'o', b'=', 0xff]])
+    .collect();
+    let mut jobs: Vec<Vec<Vec<u8>>> = vec![];
+    for b in &bases {
+        for j in &junk {
+            // after the sub-command words, and at the very end
+            let nsub = b.iter().take_while(|w| !w.starts_with('-') && !w.contains('.') && w.len() < 30).count();
+            for pos in [nsub, b.len()] {
+                let mut v: Vec<Vec<u8>> = b.iter().map(|w| w.as_bytes().to_vec()).collect();
+                v.insert(pos.min(v.len()), j.clone());
+                jobs.push(v);
+            }
+        }
+    }
+    jobs.sort();
+    jobs.dedup();
+    let n = jobs.len();
+    use rayon::prelude::*;
+    jobs.par_iter().for_each(|args| {
+        rep.eval(1);
+        let sc = Scratch::new();
+        sc.write("kr.txt", kr.as_bytes());
+        sc.write("plain.bin", &p);
+        sc.write("ct.ktl", &ct);
+        let cmd = Cmd { args: args.clone(), env: vec![("KESTREL_PASSWORD".into(), "alicepw".into()), ("KESTREL_NEW_PASSWORD".into(), "x".into())], stdin: proc::StdinSpec::Bytes(b"newname\n".to_vec()), stdout_file: None, stdout_closed_pipe: false, stdin_path: None, fsize_limit: None, pty: None, stdin_splits: vec![], stdout_nonblock_slow: None, env_bytes: vec![], stdout_reader_leaves_after: None };
+        let out = proc::run(&cmd, &sc.0);
+        rep.nontrivial(&args.concat());
+        if let Err(e) = out.well_behaved() {
+            rep.violation(&format!("cli-junk/{}", e.split(' ').take(3).collect::<Vec<_>>().join("-")), json!({"kind":"argv","cmd":serde_json::to_value(&cmd).unwrap()}), format!("argv {:?}: {} — {}", args.iter().map(|a| String::from_utf8_lossy(a).to_string()).collect::<Vec<_>>(), e, out.summary()));
+        }
+    });
+    rep.extra("cli_option_junk_vectors", json!(n));
+}
+
 pub fn run(rep: &'static Report) {
     rep.set_rule("E-GRID per untrusted-input surface (all byte strings of length <= 2, every prefix of authentic files, every message length for noise_decrypt and the AEAD wrappers, every length/character-class of key strings, hostile values of every header field under heap accounting) and E-PROC: every argument vector of length <= 3 (quick) / <= 4 (thorough) over a 28-token vocabulary under two environments, as real processes. distinct non-trivial = distinct inputs per surface");
     rep.rule_add("CLI argument vectors and the per-slot value grid run as real processes; library compiled with overflow checks.");
@@ -677,6 +785,7 @@ pub fn run(rep: &'static Report) {
     string_surfaces(rep);
     cli_argv(rep);
     cli_slot_grid(rep);
+    cli_option_junk(rep);
     rep.set_exhaustive(true);
 }
 
